@@ -36,6 +36,7 @@ const exprPkg = "rare/pkg/expressions"
 
 func runC09(c *Ctx, r *Report) {
 	c09Errors(c, r)
+	c09ErrorsRecorded(c, r, "C09-a/errors-recorded")
 	c09ArgsCompiled(c, r)
 	c09Dispatch(c, r)
 	c09Unescape(c, r)
